@@ -52,6 +52,9 @@ def mk(n, tables=True, tag='ab', q0=0.1, xf=False, shift=0.0, cell=20.0, dup=Fal
     im = [(1, 0, 2, 3)] if n >= 4 else []
     if n >= 3:
         b.append((2, 0))
+        an += [(1, 2, 0), (2, 0, 1)]            # the other two angles of the ring 0-1-2: same atom set, other centre
+    if n >= 4:
+        d.append((0, 2, 1, 3))                  # same atom set as (0, 1, 2, 3) in an order that is not its reversal
     if dup and n >= 2:
         b.append((0, 1))
     tup = dict(bond=b, angle=an, dihedral=d, improper=im)
@@ -61,7 +64,7 @@ def mk(n, tables=True, tag='ab', q0=0.1, xf=False, shift=0.0, cell=20.0, dup=Fal
         mult = dict(bond=1, angle=2, dihedral=3, improper=1)[k]          # different id ranges per kind, so that offsets of different kinds differ
         kw[k + '_types'] = [((i % 2) * mult if two_types else 0) for i in range(len(t))]
         if tables and t:
-            kw[k + '_type_coeffs'] = ['%s_%s_%d  1.5 # c%d' % (k[0], tag, i, i) for i in range(mult + 1 if two_types else 1)]
+            kw[k + '_type_coeffs'] = ['%s_%s_%d  1.5 # c%d' % (k[0], tag, i, i) for i in range(mult + 2 if two_types else 1)]   # one trailing unused type
         if xf and t:
             if k == 'improper':
                 continue
